@@ -702,7 +702,15 @@ def cl_forall(ex, args, kw, st):
     names = getattr(fn, 'argnames', None)
     # a real quantifier in every position: z3 skolemises per polarity itself (a manual skolem
     # constant would be unsound under negation, e.g. inside iff(...))
-    vs = [z3.Int(f'bv!{next(_bv)}') for k in range(n)]
+    skolem = getattr(ex, 'polarity', 0) == 1 and ex.goal_mode
+    if skolem:
+        # positive position of a goal: "for all i" is proved for fresh constants i; facts and
+        # obligations produced while reading element i of lazily evaluated sequences are then
+        # about ordinary constants (ex.polarity is reset so nested quantifiers stay quantifiers
+        # unless they too are positive)
+        vs = [fresh('sk', 'int') for k in range(n)]
+    else:
+        vs = [z3.Int(f'bv!{next(_bv)}') for k in range(n)]
     guard = []
     for v, r in zip(vs, ranges):
         if r is None:
@@ -714,6 +722,8 @@ def cl_forall(ex, args, kw, st):
             guard.append(v < num_term(hi))
     body = to_bool(fn.fn(*vs))
     f = z3.Implies(z3.And(*guard), body) if guard else body
+    if skolem:
+        return f
     return z3.ForAll(vs, f)
 
 
